@@ -41,6 +41,7 @@ fn main() {
     let mut only = None;
     let mut out = None;
     let mut scale = 1.0f64;
+    let mut range = None;
     let mut i = 3;
     while i < args.len() {
         let need = |i: usize| -> &str { args.get(i + 1).map(|s| s.as_str()).unwrap_or_else(|| usage()) };
@@ -50,6 +51,13 @@ fn main() {
             "--threads" => threads = need(i).parse().unwrap_or_else(|_| usage()),
             "--scale" => scale = need(i).parse().unwrap_or_else(|_| usage()),
             "--out" => out = Some(need(i).to_string()),
+            "--range" => {
+                let parts: Vec<&str> = need(i).split(':').collect();
+                if parts.len() != 3 {
+                    usage();
+                }
+                range = Some((parts[0].to_string(), parts[1].parse().unwrap_or_else(|_| usage()), parts[2].parse().unwrap_or_else(|_| usage())));
+            }
             "--case" => {
                 let (s, n) = need(i).rsplit_once(':').unwrap_or_else(|| usage());
                 only = Some((s.to_string(), n.parse().unwrap_or_else(|_| usage())));
@@ -57,6 +65,12 @@ fn main() {
             _ => usage(),
         }
         i += 2;
+    }
+    if cmd == "streams" {
+        for s in corpus::STREAMS {
+            println!("{} {}", s, corpus::count(s, tier == "thorough", scale));
+        }
+        return;
     }
     if cmd == "digest" {
         let lines = match id.as_str() {
@@ -78,7 +92,7 @@ fn main() {
     if cmd != "run" {
         usage();
     }
-    let ctx = Ctx { tier_thorough: tier == "thorough", seed, threads, only, scale };
+    let ctx = Ctx { tier_thorough: tier == "thorough", seed, threads, only, scale, range };
     let mut rep = Report::new();
     let start = std::time::Instant::now();
     match id.as_str() {
@@ -105,6 +119,9 @@ fn main() {
             eprintln!("unknown property {}", id);
             std::process::exit(2)
         }
+    }
+    if ctx.only.is_some() || ctx.range.is_some() {
+        rep.floors.clear();
     }
     let profile = if cfg!(debug_assertions) { "debug" } else { "release" };
     let j = rep.to_json(&id, &tier, seed, profile, start.elapsed().as_secs_f64());
